@@ -236,6 +236,11 @@ def x_lca(report):
     if "if sig.name:\n                ident = sig.name\n            else:\n                ident = sig.filename" not in idx_fn \
             or "lineage = assignments.get(ident)" not in idx_fn:
         raise Unrecognised("command_index.index", "identifier source / lookup changed")
+    # bookkeeping of consumed spreadsheet rows: set.remove raises KeyError for a row consumed before, set.discard does not
+    n_rm, n_dc = idx_fn.count("record_remnants.remove(ident)"), idx_fn.count("record_remnants.discard(ident)")
+    if n_rm + n_dc != 1 or "if lineage:\n                record_remnants." not in idx_fn:
+        raise Unrecognised("command_index.index", "record_remnants bookkeeping changed")
+    out["idxRemnantsRemoveRaises"] = n_rm == 1
 
     # ---- twin implementations -----------------------------------------------------
     bt = _nodoc(_func(lu, "build_tree"))
@@ -344,6 +349,8 @@ inductive VersionCut where
 deriving Repr, DecidableEq
 def idxTaxVersionCut : VersionCut := .{out['idxTaxVersionCut']}
 def idxSigVersionCut : VersionCut := .{out['idxSigVersionCut']}
+/-- `lca index` drops a consumed spreadsheet row with `set.remove` (KeyError when it is already gone), not `set.discard` -/
+def idxRemnantsRemoveRaises : Bool := {_bool(out['idxRemnantsRemoveRaises'])}
 /-- `LineageTree.add_lineage` / `.find_lca` are statement-for-statement `build_tree` / `find_lca` -/
 def lineageTreeTwin : Bool := {_bool(out['lineageTreeTwin'])}
 """
